@@ -211,6 +211,22 @@ int main(int argc, char** argv) {
       else if (cmd == "end") std::cout << "end\n";
       else if (cmd == "new") { int id = std::atoi(tk.t[1].c_str()); try { do_new(tk); std::cout << "res ok\n"; print_state(id); } catch (const std::exception& e) { if (dynamic_cast<const std::runtime_error*>(&e) && std::string(e.what()).substr(0,5) == "case:") throw; std::cout << "res exn " << exn_class(e) << "\n"; } }
       else if (cmd == "copy") { int id = tk.nextl(); put(id, clone(*get(tk.nextl()))); std::cout << "res ok\n"; print_state(id); }
+      else if (cmd == "twin") {
+        // an object denoting the same set as X, rebuilt from one of X's descriptions (read from a copy of X)
+        int id = tk.nextl(); const Polyhedron& x = *get(tk.nextl()); std::string how = tk.next();
+        Polyhedron* c = clone(x); const bool closed = (x.topology() == NECESSARILY_CLOSED);
+        Polyhedron* y = 0;
+        if (how == "cons" || how == "cons_nm") {
+          Constraint_System cs = (how == "cons") ? c->minimized_constraints() : c->constraints();
+          y = closed ? (Polyhedron*) new C_Polyhedron(cs) : new NNC_Polyhedron(cs);
+        } else if (how == "gens" || how == "gens_nm") {
+          Generator_System gs = (how == "gens") ? c->minimized_generators() : c->generators();
+          y = closed ? (Polyhedron*) new C_Polyhedron(gs) : new NNC_Polyhedron(gs);
+        } else throw std::runtime_error("case: bad twin");
+        if (y->space_dimension() < x.space_dimension())
+          y->add_space_dimensions_and_embed(x.space_dimension() - y->space_dimension());
+        delete c; put(id, y); std::cout << "res ok\n"; print_state(id);
+      }
       else if (cmd == "op") {
         int id = std::atoi(tk.t[1].c_str());
         // every other object mentioned as an argument is re-observed too (arguments must stay unchanged)
